@@ -2,3 +2,5 @@ pub mod static_checks;
 pub mod c18;
 pub mod c17;
 pub mod c17_more;
+pub mod dyn_checks;
+pub mod c17_proc;
